@@ -40,8 +40,8 @@ type hCol struct {
 	Kind hKind
 	Type string
 	PK   bool
-	Def  bool // declared with a DEFAULT
-	UID  int  // identity of the column: assigned by CREATE TABLE / ADD COLUMN, kept by RENAME / MODIFY
+	Def  string // DEFAULT literal ("" = none)
+	UID  int    // identity of the column: assigned by CREATE TABLE / ADD COLUMN, kept by RENAME / MODIFY
 }
 
 // hTable is the model of one table: columns in schema order and rows keyed by the joined
@@ -300,6 +300,7 @@ type hConfig struct {
 	Types        []hTypeChoice
 	TablePool    []string
 	ColPool      []string
+	MinCommits   int  // minimum number of generated commits (0 = 2)
 	MaxCommits   int  // commits made by the generator (the initial commit of the database is extra)
 	MaxEdits     int  // edit operations per commit
 	Branches     bool // create / switch / move branches and tags along the way
@@ -631,7 +632,7 @@ func (h *hHist) addColumn() {
 		lit, wire := hGenValue(rt, h.label("addc.def"), ty.Kind)
 		def += " DEFAULT " + lit
 		fill = wire
-		col.Def = true
+		col.Def = lit
 	}
 	pos := len(t.Cols)
 	if h.cfg.ColPositions {
@@ -926,7 +927,11 @@ func (h *hHist) refOps() {
 // build generates the whole history.
 func (h *hHist) build() {
 	rt := h.rt
-	nc := rapid.IntRange(2, h.cfg.MaxCommits).Draw(rt, "ncommits")
+	minC := 2
+	if h.cfg.MinCommits > 0 {
+		minC = h.cfg.MinCommits
+	}
+	nc := rapid.IntRange(minC, h.cfg.MaxCommits).Draw(rt, "ncommits")
 	for c := 0; c < nc; c++ {
 		ne := rapid.IntRange(0, h.cfg.MaxEdits).Draw(rt, fmt.Sprintf("c%d.nedits", c))
 		for e := 0; e < ne; e++ {
